@@ -64,3 +64,80 @@ pub mod membal {
         )
     }
 }
+
+/// C37 — Compressor forwarding metadata (`policy::compressor::forwarding`).
+pub mod xducer {
+    use crate::policy::compressor::forwarding::{
+        Block, CompressorRegion, ForwardingMetadata, MARK_SPEC, OFFSET_VECTOR_SPEC,
+    };
+    use crate::util::linear_scan::Region;
+    use crate::util::Address;
+    use crate::vm::VMBinding;
+    use atomic::Ordering;
+
+    /// Bytes in a Compressor region / in an offset-vector block.
+    pub const REGION_BYTES: usize = CompressorRegion::BYTES;
+    /// Bytes in an offset-vector block.
+    pub const BLOCK_BYTES: usize = Block::BYTES;
+
+    /// A `ForwardingMetadata` of its own (the mark bitmap and the offset vector are global side
+    /// metadata; the struct only carries the `calculated` flag).
+    pub struct Fwd<VM: VMBinding>(ForwardingMetadata<VM>);
+
+    impl<VM: VMBinding> Fwd<VM> {
+        /// `ForwardingMetadata::new()`.
+        pub fn new() -> Self {
+            Fwd(ForwardingMetadata::new())
+        }
+        /// `calculate_offset_vector(region, cursor)`.
+        pub fn calculate_offset_vector(&self, region_start: Address, cursor: Address) {
+            self.0
+                .calculate_offset_vector(CompressorRegion::from_aligned_address(region_start), cursor)
+        }
+        /// `forward(address)`.
+        pub fn forward(&self, address: Address) -> Address {
+            self.0.forward(address)
+        }
+        /// `release()`.
+        pub fn release(&self) {
+            self.0.release()
+        }
+    }
+
+    impl<VM: VMBinding> Default for Fwd<VM> {
+        fn default() -> Self {
+            Self::new()
+        }
+    }
+
+    /// Map the Compressor's two local side-metadata tables for the data range `[start, start + bytes)`
+    /// (what `CompressorSpace` gets from its `SideMetadataContext` when it acquires pages). Needed
+    /// when no `CompressorSpace` exists in the running plan.
+    pub fn map_metadata(start: Address, bytes: usize) {
+        use crate::util::metadata::side_metadata::SideMetadataContext;
+        let ctx = SideMetadataContext {
+            global: vec![],
+            local: vec![MARK_SPEC, OFFSET_VECTOR_SPEC],
+        };
+        ctx.try_map_metadata_space(start, bytes, "verif-xducer")
+            .unwrap_or_else(|e| panic!("cannot map compressor metadata: {e:?}"));
+    }
+
+    /// Clear the mark bits and the offset vector of `[start, start + bytes)` (as `CompressorSpace::prepare`
+    /// clears the mark bits).
+    pub fn clear(start: Address, bytes: usize) {
+        MARK_SPEC.bzero_metadata(start, bytes);
+        OFFSET_VECTOR_SPEC.bzero_metadata(start, bytes);
+    }
+
+    /// Set the mark bit of the word at `addr` (what `test_and_mark` / `mark_last_word_of_object` do
+    /// for the first / last word of an object).
+    pub fn set_mark(addr: Address) {
+        MARK_SPEC.fetch_or_atomic::<u8>(addr, 1, Ordering::SeqCst);
+    }
+
+    /// The offset-vector entry of the block containing `addr`.
+    pub fn offset_entry(addr: Address) -> usize {
+        OFFSET_VECTOR_SPEC.load_atomic::<usize>(Block::from_unaligned_address(addr).start(), Ordering::SeqCst)
+    }
+}
